@@ -238,6 +238,7 @@ func (f *Func) callGraph(args *argBuilder) (
 	}
 
 	log.Trace("full graph (may have cycles)", "graph", g.String())
+	verifGraph("callgraph.full", &g, nil, vertexRoot, vertexF, nil)
 
 	// Next we do a DFS from each input A in I to the function F.
 	// This gives us the full set of reachable nodes from our inputs
@@ -274,6 +275,7 @@ func (f *Func) callGraph(args *argBuilder) (
 		}
 	}
 	log.Trace("graph after input DFS", "graph", g.String())
+	verifGraph("callgraph.pruned", &g, nil, vertexRoot, vertexF, nil)
 
 	// Go through all our inputs. If any aren't in the graph any longer
 	// it means there is no possible path to that input so it cannot be
@@ -329,6 +331,8 @@ func (f *Func) reachTarget(
 	redefine bool,
 ) (map[interface{}]reflect.Value, error) {
 	log.Trace("reachTarget", "target", target)
+	verifPoint("reach.enter", f)
+	defer verifPoint("reach.exit", f)
 
 	// argMap will store all the values that this target depends on.
 	argMap := map[interface{}]reflect.Value{}
@@ -398,6 +402,7 @@ func (f *Func) reachTarget(
 
 		// With the latest shortest paths, let's add the path for this target.
 		paths[i] = currentG.EdgeToPath(current, edgeTo)
+		verifGraph("reach.path", g, currentG, root, current, edgeTo)
 		log.Trace("path for target", "target", current, "path", paths[i])
 
 		// Get the input
@@ -561,6 +566,7 @@ func (f *Func) reachTarget(
 // with the given named arguments. This skips the whole graph creation
 // step by requiring args satisfy all required arguments.
 func (f *Func) callDirect(log hclog.Logger, argMap map[interface{}]reflect.Value) Result {
+	verifPoint("direct.enter", f)
 	// If we have FuncOnce enabled and we've been called before, return
 	// the result we have cached.
 	if f.once && f.onceResult != nil {
@@ -598,9 +604,11 @@ func (f *Func) callDirect(log hclog.Logger, argMap map[interface{}]reflect.Value
 		log.Trace("argument", "idx", i, "value", arg.Interface())
 	}
 
+	verifPoint("direct.call", f)
 	out := f.fn.Call(in)
 	result := Result{out: out}
 
+	verifPoint("direct.called", f)
 	// If we have FuncOnce enabled, cache the result.
 	if f.once {
 		f.onceResult = &result
